@@ -115,7 +115,6 @@ type Sim struct {
 	cfg   Config
 	mu    sync.Mutex // guards task state against tasks leaving a runtime block
 	tasks []*Task
-	byG   map[uint64]*Task
 	curp  atomic.Pointer[Task]
 	kick  chan struct{}
 	rng   uint64
@@ -405,7 +404,15 @@ func Reacquire() {
 	}
 	raceDisable()
 	s.mu.Lock()
-	t := s.byG[g]
+	// (no Go map here: the runtime's map code reports its accesses to the race
+	// detector whatever the caller's //go:norace says)
+	var t *Task
+	for _, x := range s.tasks {
+		if x != nil && x.goid == g && x.state != stDone {
+			t = x
+			break
+		}
+	}
 	s.mu.Unlock()
 	raceEnable()
 	if t == nil {
@@ -491,9 +498,8 @@ func GoNamed(name string, f func()) {
 
 func (s *Sim) taskMain(t *Task, f func()) {
 	raceDisable()
-	t.goid = runtime.SimGoid()
 	s.mu.Lock()
-	s.byG[t.goid] = t
+	t.goid = runtime.SimGoid()
 	s.mu.Unlock()
 	<-t.wake
 	raceEnable()
@@ -516,7 +522,6 @@ func (s *Sim) taskExit(t *Task) {
 	raceDisable()
 	s.mu.Lock()
 	t.state = stDone
-	delete(s.byG, t.goid)
 	if t.ID == 0 {
 		s.mainDone = true
 	}
@@ -601,7 +606,7 @@ func Run(t *testing.T, cfg Config, main func()) (out Outcome) {
 	if cfg.MaxVirtual == 0 {
 		cfg.MaxVirtual = time.Hour
 	}
-	s := &Sim{cfg: cfg, byG: map[uint64]*Task{}}
+	s := &Sim{cfg: cfg}
 	s.rng = mix(cfg.Seed ^ 0x5851f42d4c957f2d)
 	s.hash = 0xcbf29ce484222325
 	if cfg.Strategy == StratPCT {
@@ -615,18 +620,34 @@ func Run(t *testing.T, cfg Config, main func()) (out Outcome) {
 		sort.Slice(s.pctAt, func(i, j int) bool { return s.pctAt[i] < s.pctAt[j] })
 	}
 	defer func() {
-		if r := recover(); r != nil {
-			msg := fmt.Sprint(r)
-			if strings.Contains(msg, "deadlock:") {
-				// leaked goroutines at the end of the bubble; already counted
-			} else {
-				panic(r)
-			}
-		}
 		S = nil
 		runtime.SimSetRand(0)
 		out = s.out
 	}()
+	// synctest.Test calls t.FailNow (runtime.Goexit) when the inner test failed,
+	// e.g. because the race detector reported something during the run: run it
+	// on a helper goroutine so that only that goroutine ends.
+	finished := make(chan any, 1)
+	go s.runBubble(t, main, finished)
+	if r := <-finished; r != nil {
+		panic(r)
+	}
+	return
+}
+
+func (s *Sim) runBubble(t *testing.T, main func(), finished chan any) {
+	var rec any
+	defer func() {
+		if r := recover(); r != nil {
+			msg := fmt.Sprint(r)
+			if !strings.Contains(msg, "deadlock:") {
+				rec = r
+			}
+			// else: leaked goroutines at the end of the bubble; already counted
+		}
+		finished <- rec
+	}()
+	cfg := s.cfg
 	synctest.Test(t, func(t *testing.T) {
 		S = s
 		s.kick = make(chan struct{}, 1) // must be created inside the bubble
@@ -642,7 +663,6 @@ func Run(t *testing.T, cfg Config, main func()) (out Outcome) {
 		s.out.Tasks = s.nexti
 		runtime.SimSetRand(0)
 	})
-	return
 }
 
 func (s *Sim) drainKick() {
@@ -749,7 +769,9 @@ func (s *Sim) loop() {
 		t.state = stRunning
 		s.curp.Store(t)
 		s.mu.Unlock()
+		raceDisable()
 		t.wake <- struct{}{}
+		raceEnable()
 	}
 }
 
